@@ -14,7 +14,8 @@ from checks import semantics_common as sc
 
 CHUNK = 16
 LAW_SLUG = {"Reflexive": "reflexive", "Symmetric": "symmetric", "Transitive": "transitive",
-            "SameJsonEqual": "same-json-equal", "EqualSameJson": "equal-same-json"}
+            "SameJsonEqual": "same-json-equal", "EqualSameJson": "equal-same-json",
+            "NilUnequal": "equals-nil", "ForeignUnequal": "equals-other-dataquery-type"}
 NEED_TOKENS = ("top", "optional", "array", "map", "ref", "union-branch", "nullable")
 NEED_KINDS = ("any", "enum", "str", "int", "num", "bool", "union")
 
@@ -35,10 +36,16 @@ def canon(v):
     return ("str", v)
 
 
-def laws(encs, m):
+def laws(encs, m, nil_eq=(), foreign_eq=()):
     n = len(encs)
     out = {}
     R = range(n)
+    w = [(i,) for i, x in enumerate(nil_eq) if x]
+    if w:
+        out["NilUnequal"] = w
+    w = [(min(i, n - 1),) for i, x in enumerate(foreign_eq) if x]
+    if w:
+        out["ForeignUnequal"] = w
     w = [(i,) for i in R if not m[i][i]]
     if w:
         out["Reflexive"] = w
@@ -61,7 +68,7 @@ def laws(encs, m):
 def run(ctx):
     replay = None
     select = None
-    formats = sc.FORMATS
+    formats = sc.FORMATS_WITH_KIND
     deep = not ctx.quick()
     extra = None
     if ctx.replay:
@@ -74,6 +81,7 @@ def run(ctx):
     batch = sc.run_batch(ctx, select=select, formats=formats, must=("equality", "equality-2"), deep=deep, extra=extra)
     units = [u for u in batch.units.values() if u["status"] == "ok"]
     cmds, meta = [], {}
+    kind_units = sorted([u for u in units if u["fmt"] == "kind"], key=lambda u: u["pkg"])
     for u in units:
         cs = [c for c in batch.cases[u["id"]] if c["accepts"] or set(sc.parts(c["f"])) <= {"base", "alt", "BreakBound"}]
         if replay:
@@ -96,9 +104,16 @@ def run(ctx):
                 chunks += [base + same[i:i + CHUNK - 1] for i in range(0, len(same), CHUNK - 1)]
         for k, ch in enumerate(chunks):
             key = "%s/eq%d" % (u["pkg"], k)
-            cmds.append({"op": "eq", "id": key, "type": u["type"], "docs": [c["py"] for c in ch]})
+            cmd = {"op": "eq", "id": key, "type": u["type"], "docs": [c["py"] for c in ch]}
+            if u["fmt"] == "kind":
+                # a value of ANOTHER generated dataquery type: Equals must answer false for it
+                others = [x["type"] for x in kind_units if x["pkg"] != u["pkg"]]
+                if others:
+                    cmd["foreign"] = others[(kind_units.index(u) + 1) % len(others)]
+            cmds.append(cmd)
             meta[key] = (u, ch)
     recs = sc.run_driver(ctx, batch, cmds, "eq")
+    cmds_by_id = {c["id"]: c for c in cmds}
     tw = sc.TraceWriter(ctx, batch, "c13")
     order = []
     stats = collections.Counter()
@@ -123,12 +138,21 @@ def run(ctx):
         docs = [ch[i] for i in keep]
         encs = [r["encs"][i] for i in keep]
         m = [[r["m"][i][j] for j in keep] for i in keep]
+        nil_eq = [r["nil_eq"][i] for i in keep] if r.get("iface_equals") else []
+        foreign_eq = [r["foreign_eq"][i] for i in keep] if (r.get("iface_equals") and "foreign" in cmds_by_id[key]) else []
+        if foreign_eq:
+            # last entry: the zero value of this type against the zero value of the other type (field-wise equal, other type)
+            foreign_eq.append(bool(r.get("foreign_eq_zero")))
         try:
-            tw.add_eq(u["pkg"], key, encs, m)
+            tw.add_eq(u["pkg"], key, encs, m, nil_eq, foreign_eq)
         except sc.NotInUniverse:
             stats["matrices_outside_number_universe"] += 1
             continue
-        viol = laws(encs, m)
+        viol = laws(encs, m, nil_eq, foreign_eq)
+        if u["fmt"] == "kind":
+            stats["dataquery_variant_matrices"] += 1
+            stats["equals_nil_calls"] += len(nil_eq)
+            stats["equals_other_dataquery_type_calls"] += len(foreign_eq)
         order.append((key, set(viol)))
         n = len(encs)
         stats["matrices"] += 1
@@ -158,6 +182,8 @@ def run(ctx):
             w = ws[0]
             if law in ("Symmetric", "EqualSameJson"):
                 cls = sc.diff_class(schema, encs[w[0]], encs[w[1]])
+            elif law in ("NilUnequal", "ForeignUnequal"):
+                cls = "dataquery-variant"        # the two guards of the dataquery Equals: one class whatever the schema
             elif law == "Transitive":
                 # a.Equals(b), b.Equals(c), not a.Equals(c): the class is the difference the code overlooked
                 cls = sc.diff_class(schema, encs[w[0]], encs[w[1]]) if not sc.json_equal(encs[w[0]], encs[w[1]]) \
@@ -170,6 +196,8 @@ def run(ctx):
                 "Transitive": "Equals holds for (a,b) and (b,c) but not (a,c)",
                 "SameJsonEqual": "values encoding to the same JSON %s are not Equal" % sc.dumps(encs[w[0]]),
                 "EqualSameJson": "Equal values encode to different JSON",
+                "NilUnequal": "Equals(nil) answers true for the value of %s" % sc.dumps(docs[w[0]]["py"]),
+                "ForeignUnequal": "Equals(<value of another dataquery type>) answers true for the value of %s" % sc.dumps(docs[w[0]]["py"]),
             }[law]
             if law in ("Symmetric", "EqualSameJson"):
                 what = "%s: %s vs %s" % (what.replace("(%s, %s)", ""), sc.dumps(encs[w[0]]), sc.dumps(encs[w[1]]))
@@ -191,7 +219,8 @@ def run(ctx):
     binding = None
     if not replay:
         vac = [k for k in ("matrices", "single_leaf_mutation_pairs", "nontrivial_equal_pairs_of_distinct_documents",
-                           "nontrivial_same_json_pairs_of_distinct_documents", "nontrivial_transitive_triples") if stats[k] == 0]
+                           "nontrivial_same_json_pairs_of_distinct_documents", "nontrivial_transitive_triples",
+                           "dataquery_variant_matrices", "equals_nil_calls", "equals_other_dataquery_type_calls") if stats[k] == 0]
         vac += ["position:" + t for t in NEED_TOKENS if per_tok[t] == 0]
         vac += ["kind:" + k for k in NEED_KINDS if per_kind[k] == 0]
         sc.vacuity_gate(ctx, vac, "vacuous laws / classes")
